@@ -12,7 +12,7 @@ from typing import Dict, List, Optional, Set, Tuple
 
 from ..model import Program, AnalysisError, FuncInfo, ClassInfo, FieldInfo, walk_local, dotted
 from ..report import RuleResult
-from ..astutil import src, site, calls_in, call_name
+from ..astutil import src, site, calls_in, call_name, is_self_attr
 from . import c14
 
 EXPLANATION = (
@@ -356,6 +356,88 @@ def weak_wrapper(prog: Program) -> RuleResult:
     return r
 
 
+_WEAK_WRAPS = ("id", "type", "WrappedInstance", "ref", "weakref.ref", "proxy", "weakref.proxy", "WeakMethod", "isinstance", "len", "hash", "repr", "str")
+
+
+def sg_no_raw(prog: Program) -> RuleResult:
+    """The symbol graph is a process-wide singleton: whatever one of its attributes refers to lives as long as the process. Its methods are
+    handed raw user instances all the time (to look them up, to wrap them). None of them stores one - in an attribute of the graph, in an
+    element of one, through a mutator - except inside a WrappedInstance (which holds it weakly) or as its id(): a "last answer" memo, a
+    list of recently resolved instances, a cache keyed by the instance itself keep the instance, and everything it refers to, alive after
+    the program has dropped it."""
+    r = RuleResult("SG-NO-RAW", "no method of the symbol graph stores a raw instance in the graph", floor=3)
+    sg = prog.cls("symbol_graph.SymbolGraph")
+    n = 0
+    for name, f in sorted(sg.methods.items()):
+        a = f.node.args
+        raw = set()
+        for p in (a.posonlyargs + a.args + a.kwonlyargs)[1:]:
+            t = ast.unparse(p.annotation) if p.annotation is not None else ""
+            # a parameter that is (or may be) the user's object itself
+            if t in ("", "Any", "Symbol", "T", "Optional[Any]") or "Symbol" in t and "Type" not in t or p.arg in ("instance", "obj"):
+                raw.add(p.arg)
+        for _ in range(2):
+            for x in walk_local(f.node):
+                if isinstance(x, ast.Assign):
+                    v = x.value
+                    derived = (isinstance(v, ast.Attribute) and v.attr == "instance") or (isinstance(v, ast.Name) and v.id in raw)
+                    if derived:
+                        raw |= {t.id for t in x.targets if isinstance(t, ast.Name)}
+                if isinstance(x, (ast.For, ast.comprehension)) and isinstance(x.target, ast.Name) and isinstance(x.iter, ast.Name) and x.iter.id in raw:
+                    pass
+        if not raw:
+            continue
+        n += 1
+
+        def carries_raw(e) -> bool:
+            """the expression's value refers to a raw instance strongly"""
+            if isinstance(e, ast.Name):
+                return e.id in raw
+            if isinstance(e, ast.Attribute):
+                return e.attr == "instance" and not is_self_attr(e)
+            if isinstance(e, ast.Call):
+                nm = dotted(e.func) or ""
+                if nm in _WEAK_WRAPS or nm.split(".")[-1] in _WEAK_WRAPS:
+                    return False
+                return any(carries_raw(x) for x in e.args) or any(carries_raw(k.value) for k in e.keywords)
+            if isinstance(e, (ast.Tuple, ast.List, ast.Set)):
+                return any(carries_raw(x) for x in e.elts)
+            if isinstance(e, ast.Dict):
+                return any(carries_raw(x) for x in list(e.keys) + list(e.values) if x is not None)
+            if isinstance(e, ast.IfExp):
+                return carries_raw(e.body) or carries_raw(e.orelse)
+            if isinstance(e, ast.BoolOp):
+                return any(carries_raw(x) for x in e.values)
+            return False
+
+        bad = None
+        for x in walk_local(f.node):
+            if isinstance(x, (ast.Assign, ast.AugAssign, ast.AnnAssign)):
+                tg = x.targets if isinstance(x, ast.Assign) else [x.target]
+                for t in tg:
+                    base = t
+                    key = None
+                    while isinstance(base, ast.Subscript):
+                        key = base.slice
+                        base = base.value
+                    if is_self_attr(base) or (isinstance(base, ast.Attribute) and isinstance(base.value, ast.Call) and call_name(base.value) == "type"):
+                        if x.value is not None and carries_raw(x.value) or (key is not None and carries_raw(key)):
+                            bad = bad or x
+            if isinstance(x, ast.Call) and isinstance(x.func, ast.Attribute) and x.func.attr in ("append", "add", "insert", "extend", "update", "setdefault", "appendleft") :
+                base = x.func.value
+                while isinstance(base, ast.Subscript):
+                    base = base.value
+                if is_self_attr(base) and any(carries_raw(y) for y in x.args):
+                    bad = bad or x
+        r.check(bad is None, f"SymbolGraph.{name}#stores-no-raw-instance", site(f, bad) if bad is not None else site(f), src(bad)[:80] if bad is not None else f"raw instances in scope: {sorted(raw)}",
+                "the raw instances this method handles reach the graph only wrapped (weakly) or as ids",
+                f"{src(bad)[:70] if bad is not None else ''} stores a raw instance in the process-wide graph: the instance that was resolved / related last stays alive after the program has "
+                "dropped it - with its node, its edges, its index entries, and everything its own fields refer to; a domain-less variable still ranges over it")
+    if n < 3:
+        raise AnalysisError(f"SG-NO-RAW: only {n} methods of SymbolGraph handle raw instances")
+    return r
+
+
 def _stream_lazy(prog):
     # a variable that was only built must not hold the instances its domain would range over: the domain stream is stored, not read
     from .c10 import stream_lazy
@@ -368,4 +450,4 @@ def run(prog: Program, tier: str) -> List[RuleResult]:
 
     return [strong_ref(prog), weak_wrapper(prog), c14.sg_coherence(prog), c14.idkey(prog), c14.sg_purge_directions(prog), c13.sg_sweep(prog), _stream_lazy(prog),
             # an edge whose payload was overwritten leaves its pair in the relation index for good
-            c14.rel_edges(prog)]
+            c14.rel_edges(prog), sg_no_raw(prog)]
